@@ -63,6 +63,7 @@ fn random(a: &Args) {
     let chain: usize = a.num("chain", 0);
     for k in 0..count + funnel + chain {
         shredh::unwind::set(rng.gen_bool(a.num("punwind", 0.1)));
+        shredh::record::set_early_pool(rng.gen_bool(0.3));
         if k >= count {
             let prog = if k >= count + funnel { shredh::prog::gen_chain(&mut rng) } else { shredh::prog::gen_funnel(&mut rng) };
             let mut res = Vec::new();
@@ -84,7 +85,15 @@ fn random(a: &Args) {
             cfg.p_write = 0.5;
             cfg.n_res = 2;
         }
-        let prog = if rng.gen_bool(a.num("pfunnel", 0.12)) { shredh::prog::gen_funnel(&mut rng) } else { gen_prog(&mut rng, &cfg, 0, "") };
+        let degenerate = rng.gen_bool(a.num("pdegenerate", 0.06));
+        shredh::record::set_no_pool(rng.gen_bool(if degenerate { 0.5 } else { 0.02 }));
+        let prog = if degenerate {
+            shredh::prog::gen_degenerate(&mut rng)
+        } else if rng.gen_bool(a.num("pfunnel", 0.12)) {
+            shredh::prog::gen_funnel(&mut rng)
+        } else {
+            gen_prog(&mut rng, &cfg, 0, "")
+        };
         let mut res = Vec::new();
         prog.resources(&mut res);
         for v in 0..variants {
@@ -139,6 +148,7 @@ fn replay_chunk(lines: &[String], first_no: usize, seed: u64, variants: usize, k
         // reference of the C19 comparison in ShredTrace)
         let sample_this = acc.written < keep && rng.gen_bool(0.01);
         shredh::unwind::set(rng.gen_bool(0.02));
+        shredh::record::set_early_pool(rng.gen_bool(0.3));
         let mut buf: Vec<Value> = Vec::new();
         let mut any_drift = false;
         for v in 0..variants {
@@ -242,6 +252,7 @@ fn sendable(a: &Args) {
     let (mut with_tl, mut nev) = (0usize, 0usize);
     for k in 0..count {
         shredh::unwind::set(rng.gen_bool(0.1));
+        shredh::record::set_early_pool(rng.gen_bool(0.3));
         let mut cfg = base.clone();
         cfg.p_tl = *[0.0, 0.0, 0.05, 0.3].get(rng.gen_range(0..4)).unwrap();
         let prog = gen_prog(&mut rng, &cfg, 0, "");
